@@ -5,7 +5,8 @@ from .. import monitor, mon_meta, w_alg
 LEVEL = 'exploration'
 SHARDS = {'quick': 2, 'thorough': 16}
 BUDGET = {'quick': 60, 'thorough': 600}
-RULE = ('merge/embed/mask/forwards/partial retrieval over the universe extended with default values and annotation values '
+RULE = ("(also: the annotation of the result's *args / **kwargs when all inputs have one, whatever it is called on each side) "
+        'merge/embed/mask/forwards/partial retrieval over the universe extended with default values and annotation values '
         'drawn per parameter from three-element pools (agreement and disagreement both frequent), coming from functions, classes, callable instances and plain inspect.Signature objects, and random expression '
         'trees; the monitor recomputes, for every result parameter, the input parameters it stands for (same name; for '
         'positional ones also the same index) and checks optionality, default, annotation, kind restriction, relative '
